@@ -20,6 +20,16 @@
 (*     Decode     pickle_utils.DecodeAst(b1)                     structure s1, ASTeq(.., canon)  *)
 (*     Reencode   pickle_utils.Encode(decoded)                                     b2               *)
 (*     Reserialize pickle_utils.Serialize(decoded.ast)                          b3               *)
+(*     Again      pickle_utils.Serialize(ast) a second time on the SAME ast object  b4            *)
+(*                (the first call cleared its class pointers in place)                            *)
+(*     Reorder    structure of CanonicalOrdering(decoded.ast)                       s2            *)
+(*   node line   (C12, second sentence, across class-pointer states)  Hash -> Clear -> Found     *)
+(*     Hash       the type nodes of the AST about to be serialised (class pointers as the        *)
+(*                producer left them: filled in, mixed or absent) are hashed and put in a set h0  *)
+(*     Clear      after Serialize(ast) (which clears the pointers IN PLACE) the same node        *)
+(*                objects are hashed again h1; is every one of them still found in the set?       *)
+(*     Found      the type nodes of DecodeAst(bytes) (no pointers) are hashed h2; is every one    *)
+(*                of them found in the set built at Hash (equal nodes de-duplicate)?              *)
 (*                                                                                            *)
 (* The real code is the environment: every step has a nondeterministic outcome (ok / failed,    *)
 (* some digest).  A failed step that later steps need ends the run.  The properties are         *)
@@ -30,7 +40,7 @@ EXTENDS Naturals, Sequences, FiniteSets, TLC
 
 CONSTANT Digests        \* the abstract digests the model run draws from (trace runs pass real ones)
 
-VARIABLES line,         \* "text" | "bytes": which pipeline this run exercises
+VARIABLES line,         \* "text" | "bytes" | "nodes": which pipeline this run exercises
           phase,        \* name of the last completed step, "start", or "failed"
           art           \* the artifact record
 
@@ -44,11 +54,15 @@ Art0 == [t1 |-> None, a1 |-> None, t2 |-> None, a2 |-> None, t3 |-> None,
          origeq |-> Unk,
          c0 |-> None, b1 |-> None, s1 |-> None, b2 |-> None, b3 |-> None,
          canonical |-> Unk, encoded |-> Unk, decoded |-> Unk, deceq |-> Unk, reencoded |-> Unk,
-         reserialized |-> Unk, failedAt |-> None]
+         reserialized |-> Unk, failedAt |-> None,
+         b4 |-> None, s2 |-> None, again |-> Unk, reordered |-> Unk,
+         h0 |-> None, h1 |-> None, h2 |-> None, hashed |-> Unk, cleared |-> Unk, kept1 |-> Unk,
+         found |-> Unk, kept2 |-> Unk]
 
 YN(b) == IF b THEN "y" ELSE "n"
 TextOrder  == <<"start", "Print", "Parse", "Verify", "Reprint", "Reparse", "Canon", "Resolve", "Compare">>
-BytesOrder == <<"start", "Canonical", "Encode", "Decode", "Reencode", "Reserialize">>
+BytesOrder == <<"start", "Canonical", "Encode", "Decode", "Reencode", "Reserialize", "Again", "Reorder">>
+NodesOrder == <<"start", "Hash", "Clear", "Found">>
 
 Start(l) == line' = l /\ phase' = "start" /\ art' = Art0
 
@@ -113,6 +127,30 @@ ReserializeAst(ok, d) ==
   /\ art' = IF ok THEN [art EXCEPT !.reserialized = "y", !.b3 = d]
             ELSE [art EXCEPT !.reserialized = "n"]
 
+SerializeAgain(ok, d) ==
+  /\ line = "bytes" /\ phase = "Reserialize" /\ UNCHANGED line
+  /\ phase' = "Again"
+  /\ art' = IF ok THEN [art EXCEPT !.again = "y", !.b4 = d] ELSE [art EXCEPT !.again = "n"]
+ReorderDecoded(ok, d) ==
+  /\ line = "bytes" /\ phase = "Again" /\ UNCHANGED line
+  /\ phase' = "Reorder"
+  /\ art' = IF ok THEN [art EXCEPT !.reordered = "y", !.s2 = d] ELSE [art EXCEPT !.reordered = "n"]
+
+(* node line *)
+HashNodes(ok, d) ==
+  /\ line = "nodes" /\ phase = "start" /\ UNCHANGED line
+  /\ IF ok THEN phase' = "Hash" /\ art' = [art EXCEPT !.hashed = "y", !.h0 = d]
+     ELSE phase' = "failed" /\ art' = [art EXCEPT !.hashed = "n", !.failedAt = "Hash"]
+ClearNodes(ok, d, kept) ==
+  /\ line = "nodes" /\ phase = "Hash" /\ UNCHANGED line
+  /\ IF ok THEN phase' = "Clear" /\ art' = [art EXCEPT !.cleared = "y", !.h1 = d, !.kept1 = YN(kept)]
+     ELSE phase' = "failed" /\ art' = [art EXCEPT !.cleared = "n", !.failedAt = "Clear"]
+FoundNodes(ok, d, kept) ==
+  /\ line = "nodes" /\ phase = "Clear" /\ UNCHANGED line
+  /\ phase' = "Found"
+  /\ art' = IF ok THEN [art EXCEPT !.found = "y", !.h2 = d, !.kept2 = YN(kept)]
+            ELSE [art EXCEPT !.found = "n"]
+
 -----------------------------------------------------------------------------
 (* THE PROPERTIES, as sets of violated clauses of a (possibly partial) artifact record *)
 
@@ -145,9 +183,18 @@ C05Notes(a) ==
        [] c = "pytdeq"    -> a.pytdeq # Unk /\ (a.pytdeq = "y") # (a.a2 = a.a1)}
 
 (* C12: decode(encode x) is structurally the canonically ordered original; re-encoding the      *)
-(* decoded object, and serialising the decoded AST again, give the same bytes.                  *)
+(* decoded object, serialising the decoded AST again, and serialising the SAME AST again give   *)
+(* the same bytes; what is stored is in canonical order (canonical ordering of the decoded AST  *)
+(* changes nothing).  Node line: the hash of a type node does not depend on the state of the    *)
+(* class pointers below it, which equality ignores - the hashes of an AST's type nodes are the  *)
+(* same before and after Serialize clears the pointers in place (moved), a set built before     *)
+(* still holds every node (lost), the nodes of the decoded AST hash like the original's         *)
+(* (rehash) and are found in that set (dup: else a set would keep two equal types).             *)
+C12Clauses == {"canonical", "encode", "decode", "struct", "reencode", "bytes", "reserialize", "stable",
+               "again", "repeat", "reorder", "order",
+               "nodehash", "clear", "moved", "lost", "found", "rehash", "dup"}
 C12Fails(a) ==
-  {c \in {"canonical", "encode", "decode", "struct", "reencode", "bytes", "reserialize", "stable"} :
+  {c \in C12Clauses :
      CASE c = "canonical"   -> a.canonical = "n"
        [] c = "encode"      -> a.encoded = "n"
        [] c = "decode"      -> a.decoded = "n"
@@ -155,23 +202,37 @@ C12Fails(a) ==
        [] c = "reencode"    -> a.reencoded = "n"
        [] c = "bytes"       -> a.b2 # None /\ a.b2 # a.b1
        [] c = "reserialize" -> a.reserialized = "n"
-       [] c = "stable"      -> a.b3 # None /\ a.b3 # a.b1}
+       [] c = "stable"      -> a.b3 # None /\ a.b3 # a.b1
+       [] c = "again"       -> a.again = "n"
+       [] c = "repeat"      -> a.b4 # None /\ a.b4 # a.b1
+       [] c = "reorder"     -> a.reordered = "n"
+       [] c = "order"       -> a.s2 # None /\ a.s2 # a.s1
+       [] c = "nodehash"    -> a.hashed = "n"
+       [] c = "clear"       -> a.cleared = "n"
+       [] c = "moved"       -> a.h1 # None /\ a.h1 # a.h0
+       [] c = "lost"        -> a.kept1 = "n"
+       [] c = "found"       -> a.found = "n"
+       [] c = "rehash"      -> a.h2 # None /\ a.h2 # a.h0
+       [] c = "dup"         -> a.kept2 = "n"}
 C12Notes(a) ==
   {c \in {"pytdeq"} : a.deceq # Unk /\ (a.deceq = "y") # (a.s1 = a.c0)}
 
-Complete(l, p) == p = (IF l = "text" THEN "Compare" ELSE "Reserialize") \/ p = "failed"
+Complete(l, p) == p = (CASE l = "text" -> "Compare" [] l = "bytes" -> "Reorder" [] OTHER -> "Found")
+                  \/ p = "failed"
 (* text runs of emitted stubs end at Resolve (no comparable original) *)
 Ended == Complete(line, phase) \/ (line = "text" /\ phase = "Resolve")
 
 -----------------------------------------------------------------------------
 (* the model: any outcome at any step *)
-Init == line \in {"text", "bytes"} /\ phase = "start" /\ art = Art0
+Init == line \in {"text", "bytes", "nodes"} /\ phase = "start" /\ art = Art0
 
 Next ==
   \/ \E ok \in BOOLEAN, d \in Digests :
        PrintStub(ok, d) \/ ParseText(ok, d) \/ ReprintAst(ok, d) \/ Canonicalize(ok, d) \/ EncodeAst(ok, d)
-       \/ ReencodeObj(ok, d) \/ ReserializeAst(ok, d)
+       \/ ReencodeObj(ok, d) \/ ReserializeAst(ok, d) \/ SerializeAgain(ok, d) \/ ReorderDecoded(ok, d)
+       \/ HashNodes(ok, d)
   \/ \E ok, e \in BOOLEAN, d \in Digests : ReparseText(ok, d, e) \/ CanonText(ok, d, e) \/ DecodeBytes(ok, d, e)
+                                          \/ ClearNodes(ok, d, e) \/ FoundNodes(ok, d, e)
   \/ \E ok \in BOOLEAN : VerifyAst(ok) \/ ResolveText(ok)
   \/ \E ok, e \in BOOLEAN : CompareOrig(ok, e)
 
@@ -183,6 +244,8 @@ GoodNext ==
   \/ VerifyAst(TRUE) \/ ReprintAst(TRUE, art.t1) \/ ReparseText(TRUE, art.a1, TRUE) \/ CanonText(TRUE, art.t1, TRUE)
   \/ ResolveText(TRUE) \/ CompareOrig(TRUE, TRUE)
   \/ DecodeBytes(TRUE, art.c0, TRUE) \/ ReencodeObj(TRUE, art.b1) \/ ReserializeAst(TRUE, art.b1)
+  \/ SerializeAgain(TRUE, art.b1) \/ ReorderDecoded(TRUE, art.s1)
+  \/ (\E d \in Digests : HashNodes(TRUE, d)) \/ ClearNodes(TRUE, art.h0, TRUE) \/ FoundNodes(TRUE, art.h0, TRUE)
 GoodSpec == Init /\ [][GoodNext]_rvars
 
 -----------------------------------------------------------------------------
@@ -190,17 +253,19 @@ GoodSpec == Init /\ [][GoodNext]_rvars
 YNU == {"y", "n", Unk}
 SeqToSetRT(s) == {s[k] : k \in DOMAIN s}
 TypeOK ==
-  /\ line \in {"text", "bytes"}
-  /\ phase \in SeqToSetRT(TextOrder) \cup SeqToSetRT(BytesOrder) \cup {"failed"}
+  /\ line \in {"text", "bytes", "nodes"}
+  /\ phase \in SeqToSetRT(TextOrder) \cup SeqToSetRT(BytesOrder) \cup SeqToSetRT(NodesOrder) \cup {"failed"}
   /\ \A f \in {"printed", "parsed", "verified", "reprinted", "reparsed", "pytdeq", "canon", "idem",
                "resolved", "compared", "origeq", "canonical", "encoded", "decoded", "deceq",
-               "reencoded", "reserialized"} : art[f] \in YNU
-  /\ \A f \in {"t1", "a1", "t2", "a2", "t3", "c0", "b1", "s1", "b2", "b3"} : art[f] \in Digests \cup {None}
+               "reencoded", "reserialized", "again", "reordered", "hashed", "cleared", "kept1",
+               "found", "kept2"} : art[f] \in YNU
+  /\ \A f \in {"t1", "a1", "t2", "a2", "t3", "c0", "b1", "s1", "b2", "b3", "b4", "s2", "h0", "h1", "h2"} :
+       art[f] \in Digests \cup {None}
 
 (* the protocol: an artifact exists only after the step that produces it, in pipeline order *)
 Pos(order, p) == CHOOSE k \in DOMAIN order : order[k] = p
 After(step) ==
-  LET order == IF line = "text" THEN TextOrder ELSE BytesOrder IN
+  LET order == CASE line = "text" -> TextOrder [] line = "bytes" -> BytesOrder [] OTHER -> NodesOrder IN
   phase # "failed" => Pos(order, phase) >= Pos(order, step)
 Protocol ==
   /\ (line = "text" /\ art.t1 # None) => After("Print")
@@ -212,8 +277,15 @@ Protocol ==
   /\ (line = "bytes" /\ art.s1 # None) => After("Decode") /\ art.b1 # None
   /\ (line = "bytes" /\ art.b2 # None) => After("Reencode") /\ art.s1 # None
   /\ (line = "bytes" /\ art.b3 # None) => After("Reserialize")
+  /\ (line = "bytes" /\ art.b4 # None) => After("Again") /\ art.b1 # None
+  /\ (line = "bytes" /\ art.s2 # None) => After("Reorder") /\ art.s1 # None
+  /\ (line = "nodes" /\ art.h0 # None) => After("Hash")
+  /\ (line = "nodes" /\ art.h1 # None) => After("Clear") /\ art.h0 # None
+  /\ (line = "nodes" /\ art.h2 # None) => After("Found") /\ art.h0 # None
   /\ line = "text" => C12Fails(art) = {}
-  /\ line = "bytes" => C05Fails(art) = {}
+  /\ line # "text" => C05Fails(art) = {}
+  /\ line = "bytes" => C12Fails(art) \cap {"nodehash", "clear", "moved", "lost", "found", "rehash", "dup"} = {}
+  /\ line = "nodes" => C12Fails(art) \subseteq {"nodehash", "clear", "moved", "lost", "found", "rehash", "dup"}
 
 (* under GoodSpec no clause is ever violated and nothing is noted *)
 GoodIsClean == C05Fails(art) = {} /\ C12Fails(art) = {} /\ C05Notes(art) = {} /\ C12Notes(art) = {}
@@ -223,15 +295,18 @@ CleanMeansFaithful ==
   /\ (line = "text" /\ phase = "Compare" /\ C05Fails(art) = {}) =>
         /\ art.t2 = art.t1 /\ art.a2 = art.a1 /\ art.parsed = "y" /\ art.verified = "y"
         /\ art.resolved = "y" /\ art.origeq = "y"
-  /\ (line = "bytes" /\ phase = "Reserialize" /\ C12Fails(art) = {}) =>
-        /\ art.s1 = art.c0 /\ art.b2 = art.b1 /\ art.b3 = art.b1
+  /\ (line = "bytes" /\ phase = "Reorder" /\ C12Fails(art) = {}) =>
+        /\ art.s1 = art.c0 /\ art.b2 = art.b1 /\ art.b3 = art.b1 /\ art.b4 = art.b1 /\ art.s2 = art.s1
+  /\ (line = "nodes" /\ phase = "Found" /\ C12Fails(art) = {}) =>
+        /\ art.h1 = art.h0 /\ art.h2 = art.h0 /\ art.kept1 = "y" /\ art.kept2 = "y"
   /\ (phase = "failed") => (C05Fails(art) \cup C12Fails(art)) # {}
 
 (* every clause can be the only violated one (none is implied by the others): TLC records the   *)
 (* singletons it meets; the POSTCONDITION requires all of them (run with -workers 1)            *)
 Clauses == <<"print", "parse", "verify", "reprint", "fixpoint", "reparse", "asteq", "resolve",
              "compare", "orig", "canonical", "encode", "decode", "struct", "reencode", "bytes",
-             "reserialize", "stable">>
+             "reserialize", "stable", "again", "repeat", "reorder", "order",
+             "nodehash", "clear", "moved", "lost", "found", "rehash", "dup">>
 MarkSingletons ==
   LET f == C05Fails(art) \cup C12Fails(art) IN
     (Ended /\ Cardinality(f) = 1) =>
